@@ -100,7 +100,12 @@ class Search:
         self.tier = tier
         self.variant = variant
         self.prefix = tuple(tuple(e) for e in prefix)  # events that happen before every explored history
-        self.dgrams, self.steps, self.ops = alphabet(tier, variant)
+        # '<variant>-cased': the browsed types are spelled with capitals, by the application and in every pointer record alike
+        # (the owner name still is exactly a browsed type; the cache files it under its lower-cased spelling)
+        self.ren = {TA: "_A-Type._TCP.local.", TB: "_B._Tcp.local."} if variant.endswith("-cased") else {}
+        self.dgrams, self.steps, self.ops = alphabet(tier, variant[:-6] if self.ren else variant)
+        if self.ren:
+            self.dgrams = [[(e[0], self.ren.get(e[1], e[1])) + tuple(e[2:]) if e[0] == "PTR" else e for e in dg] for dg in self.dgrams]
         self.events = [("d", i) for i in range(len(self.dgrams))] + [("t", s) for s in self.steps] + list(self.ops)
         self.current: Optional[List[tuple]] = None
 
@@ -145,7 +150,7 @@ class Search:
                 elif ev[0] == "t":
                     w.advance(ev[1])
                 elif ev[0] == "start":
-                    types = [TA] if ev[1] == "a" else [TA, TB]
+                    types = [self.ren.get(t, t) for t in ([TA] if ev[1] == "a" else [TA, TB])]
                     now = w.now_ms
                     if any(r.type == 12 and r.is_expired(now) for t in types for r in zc.cache.entries_with_name(t)):
                         skipped = True  # quantifier: browsers are not created over expired-but-unpurged pointers
@@ -241,6 +246,11 @@ def run(tier: str, seed: int) -> Tuple[Stats, str, List[str], Dict[str, Any]]:
     bfs_histories(s_b.step, s_b.events, depth, stats, f"C04/{tier}/browsing", enabled=s_b.enabled, level_log=log_b,
                   max_states=None if tier == "quick" else 250000)
     stats.notes["levels_browsing"] = log_b
+    s_c = Search(tier, "core-cased" if tier == "quick" else "full-cased", prefix=(("start", "ab"),))
+    log_c: List[Dict[str, int]] = []
+    bfs_histories(s_c.step, s_c.events, depth - 1, stats, f"C04/{tier}/browsing-cased-types", enabled=s_c.enabled, level_log=log_c,
+                  max_states=None if tier == "quick" else 250000)
+    stats.notes["levels_browsing_cased_types"] = log_c
     s_short = Search(tier, "short-steps")
     if tier != "quick":
         bfs_histories(s_short.step, s_short.events, depth + 1, stats, f"C04/{tier}/short-steps",
